@@ -85,6 +85,23 @@ CHECKS['C11'] = ('exploration',
    'Ids are float32-exact so the history is unambiguous; multiset equality is what the statement demands for several producers (batch contiguity is not demanded).',
    'DESIGN.md 2/C11')
 
+
+CHECKS['C09'] = ('exploration',
+   'run-vs-run digest comparison across child processes with varied GOMAXPROCS, perturbing Evaluate wrappers (Gosched/spin/sleep/starve), render histories and simultaneous renders; interleaving fingerprints of the observed evaluation order; Go race detector underneath',
+   'Each (model, renderer, cells, sink) is executed in many race-instrumented children under GOMAXPROCS 1..16, five perturbation policies injected on the harness side of the SDF interface, preceding histories of 0..6 renders and 2..6 simultaneous renders sharing the evaluation pool; triangle/segment sequences, STL/DXF/SVG bytes and decoded 3MF content must have one digest per spec. Race reports inside render/ or the buffer code fail the check.',
+   'Models are constructed once per process in a fixed order before any render (text/Bezier construction draws from a process-wide seeded source; that is construction, not rendering). Schedule coverage is reported as distinct observed evaluation orders, not as a fraction of the schedule space.',
+   'DESIGN.md 2/C09')
+CHECKS['C13'] = ('exploration',
+   'byte-level differential monitor: files written by SaveSTL / ToSTL (scripted renderer) parsed with an independent little-endian decoder and compared with an independent encoder; LoadSTL round trip compared bitwise; harness-written ASCII files loaded back',
+   'Triangle lists of length 0..5000 (20000 thorough, plus 65535/65536/65537/200000) with coordinates across the float32 range (integers, negatives, non-representable values, subnormals, +-0) are saved, streamed and loaded; length 84+50n, count field, vertex order and winding, zero attribute, right-hand unit normal (1e-6), bit-exact float32 round trip, streaming bytes == batch bytes, well-formed ASCII files in varied layouts load to what they list.',
+   'Normals are judged for non-degenerate triangles only; header bytes 0..79 unconstrained; NaN/Inf/float32 overflow outside the domain.',
+   'DESIGN.md 2/C13')
+CHECKS['C14'] = ('exploration',
+   'robustness monitor in child processes: structured and mutation-based hostile STL inputs fed to render.LoadSTL and obj.ImportSTL under recover(), with per-input TotalAlloc accounting and CPU-time (not wall-clock) hang detection; each input is announced before it is loaded so a process death is attributable and re-run alone',
+   'About 20k (quick) / 2M (thorough) generated files: truncated / over-long / count-mismatched binaries, count 0xFFFFFFFF, garbage floats, ASCII with 0,1,2,4,5 vertices per facet, malformed numbers, 70 kB and 1 MB lines, CR/LF/NUL/BOM, files shorter than 84 bytes, bit/byte flips, splices and truncations of the three shipped meshes. Outcome must be error or mesh; allocation <= 1 MiB + 400*size; CPU per input bounded.',
+   'All byte strings are sampled, not exhausted; go test -fuzz is not wired in (structured + mutation generators hit every seeded mutant); a zero-CPU deadlock would only show as a watchdog expiry (inconclusive).',
+   'DESIGN.md 2/C14')
+
 NOT_YET = 'monitor not built yet in this round (planned in DESIGN.md section 2); not claimed until its check exists'
 NA = {}
 
